@@ -932,10 +932,91 @@ fn c19_for<D: Dec>(run: &mut Run) {
         }
     }
     run.part(&format!("{}_pairs", D::NAME), json!({"cells": codes.len() * 3, "keys_with_make": downs.len(), "keys_with_break": ups.len()}));
+
+    // the same pairing must hold on a decoder that has already decoded something: after every
+    // complete sequence (every event-yielding make and break form, plus some rejected ones),
+    // the make and break forms of every cell must decode exactly as on a fresh decoder
+    let mut prefixes: Vec<Vec<u8>> = Vec::new();
+    for p in sc::PFXS {
+        for &c in &codes {
+            let (make, brk) = c19_forms::<D>(p, c);
+            for seq in [make, brk] {
+                if let Ok(o) = last_out::<D>(&seq) {
+                    let is_ev = matches!(o, Ok(Some(_)));
+                    let is_err_sample = o.is_err() && c % 16 == 2;
+                    if is_ev || is_err_sample {
+                        prefixes.push(seq);
+                    }
+                }
+            }
+        }
+    }
+    let fresh: Vec<(Pfx, u8, Vec<u8>, Vec<u8>, Option<Vec<ScOut>>, Option<Vec<ScOut>>)> = sc::PFXS
+        .iter()
+        .flat_map(|p| codes.iter().map(move |c| (*p, *c)))
+        .map(|(p, c)| {
+            let (m, b) = c19_forms::<D>(p, c);
+            let fm = run_bytes::<D>(&m).ok();
+            let fb = run_bytes::<D>(&b).ok();
+            (p, c, m, b, fm, fb)
+        })
+        .collect();
+    let bad: Vec<(Vec<u8>, Vec<u8>)> = prefixes
+        .par_iter()
+        .flat_map_iter(|pre| {
+            let mut bad = Vec::new();
+            for (_, _, m, b, fm, fb) in &fresh {
+                for (seq, f) in [(m, fm), (b, fb)] {
+                    let mut all = pre.clone();
+                    all.extend(seq);
+                    let got = run_bytes::<D>(&all).ok().map(|v| v[pre.len()..].to_vec());
+                    if got != *f && bad.len() < 3 {
+                        bad.push((pre.clone(), seq.clone()));
+                    }
+                }
+            }
+            bad.into_iter()
+        })
+        .collect();
+    let n = (prefixes.len() * fresh.len() * 2) as u64;
+    run.eval(n);
+    run.nontrivial_enum(n);
+    for (pre, seq) in bad.iter().take(12) {
+        c19_eval_after::<D>(run, pre, seq);
+    }
+    run.total_violating_cases += bad.len().saturating_sub(12) as u64;
+    if let Some(pre) = prefixes.get(prefixes.len() / 3) {
+        let (pre, seq) = (pre.clone(), fresh[fresh.len() / 5].3.clone());
+        run.sample(|| json!({"layer":"pairing-after-history","set":D::NAME,"history":hex(&pre),"then":hex(&seq),"decoded": run_bytes::<D>(&[pre.clone(), seq.clone()].concat()).ok().map(|v| v.iter().map(sc_out_str).collect::<Vec<_>>())}));
+    }
+    run.part(&format!("{}_pairs_after_history", D::NAME), json!({"histories": prefixes.len(), "cases": n, "failing(sampled)": bad.len()}));
+}
+
+/// one (history, make-or-break form) case of the pairing-after-history layer
+pub fn c19_eval_after<D: Dec>(run: &mut Run, pre: &[u8], seq: &[u8]) {
+    run.eval(1);
+    let mut all = pre.to_vec();
+    all.extend(seq);
+    let case = json!({"kind":"pair_after","set":D::NAME,"history":pre,"seq":seq,"hex":format!("{} | {}", hex(pre), hex(seq))});
+    match (run_bytes::<D>(&all), run_bytes::<D>(seq)) {
+        (Ok(a), Ok(f)) => {
+            let got = &a[pre.len()..];
+            if got != &f[..] {
+                let gs: Vec<String> = got.iter().map(sc_out_str).collect();
+                let fs: Vec<String> = f.iter().map(sc_out_str).collect();
+                run.violation(Violation {
+                    sig: format!("{}:pair-after:[{}]:[{}]:fresh={}:got={}", D::NAME, hex(pre).replace(' ', "."), hex(seq).replace(' ', "."), fs.join(","), gs.join(",")),
+                    what: format!("{}: after the complete sequence [{}], the sequence [{}] decodes as {} but on a fresh decoder as {} — which key a make/break form denotes depends on what was decoded before", D::NAME, hex(pre), hex(seq), gs.join(","), fs.join(",")),
+                    case,
+                });
+            }
+        }
+        (Err(p), _) | (_, Err(p)) => run.violation(Violation { sig: format!("{}:pair-after:{}", D::NAME, panic_sig(&p)), what: format!("{} decoder panics on [{}]: {}", D::NAME, hex(&all), p), case }),
+    }
 }
 
 pub fn c19(run: &mut Run) {
-    run.rule = "Exhaustive, no reference table: for both decoders x 3 prefix contexts x every code byte (256 for Set 2, 128 for Set 1) the make form ([prefix] code) and the break form (Set 2: [prefix] F0 code; Set 1: [prefix] code|0x80) are fed to fresh decoders. Oracle: make yields Down(K) <=> break yields Up(K); no break names a key without a make; the maps sequence -> key are injective on makes and on breaks; one-shot makes are exempt. Non-trivial = a (set, prefix, code) cell for which make or break yields an event; distinct by that triple.".into();
+    run.rule = "Exhaustive, no reference table: for both decoders x 3 prefix contexts x every code byte (256 for Set 2, 128 for Set 1) the make form ([prefix] code) and the break form (Set 2: [prefix] F0 code; Set 1: [prefix] code|0x80) are fed to fresh decoders. Oracle: make yields Down(K) <=> break yields Up(K); no break names a key without a make; the maps sequence -> key are injective on makes and on breaks; one-shot makes are exempt. The same forms are then decoded after every complete sequence (every event-yielding make and break form plus sampled rejected ones) and must decode exactly as on a fresh decoder. Non-trivial = a (set, prefix, code) cell for which make or break yields an event; distinct by that triple.".into();
     run.assumptions = vec!["decoders are deterministic; each cell is an independent execution from new()".into()];
     c19_for::<ScancodeSet2>(run);
     c19_for::<ScancodeSet1>(run);
@@ -954,6 +1035,11 @@ fn ev_of(o: &ScOut) -> Option<(KeyCode, KeyState)> {
 
 fn c13_seqs(p: Pfx, c2: u8, brk: bool) -> Option<(Vec<u8>, Vec<u8>)> {
     let t = sc::xlat_code(c2)?;
+    if brk && matches!(t | 0x80, 0xE0 | 0xE1) {
+        // the break of Set 2 codes 47 / 4F translates to the byte E0 / E1, which Set 1 reads
+        // as a prefix: not a key either set can express, and not a complete Set 1 sequence
+        return None;
+    }
     let mut s2 = Vec::new();
     let mut s1 = Vec::new();
     if let Some(b) = p.byte() {
@@ -1022,7 +1108,7 @@ pub fn c13_eval_converse(run: &mut Run, p: Pfx, c1: u8, brk: bool) {
     let mut same = false;
     let mut outs = Vec::new();
     for c2 in &pre {
-        let (s2, _) = c13_seqs(p, *c2, brk).unwrap();
+        let Some((s2, _)) = c13_seqs(p, *c2, brk) else { continue };
         let o2 = last_out::<ScancodeSet2>(&s2).unwrap_or(Ok(None));
         outs.push(format!("[{}]->{}", hex(&s2), sc_out_str(&o2)));
         match ev_of(&o2) {
@@ -1139,7 +1225,7 @@ impl Run {
 }
 
 pub fn c13(run: &mut Run) {
-    run.rule = "Exhaustive forward: 3 prefix contexts x Set 2 codes {01..7F, 83, 84} x {make, break}, each Set 2 sequence and the Set 1 sequence the i8042 model derives from it (prefix kept, F0+code -> code|0x80 through the standard 8042 table) fed to fresh decoders; if Set 2 yields an event Set 1 must yield the identical event. Exhaustive converse: every Set 1 (prefix, code, make/break) that yields an event is compared with all its Set 2 pre-images (none may yield a different event, at least one must yield the same). End-to-end: random typing scripts rendered to Set 2 bytes, translated, fed to Keyboard<AnyLayout, Set2/Set1> for every layout; events, modifiers and decoded characters must match. Non-trivial = cell defined in at least one set (distinct by (direction, prefix, code, make/break)); script with a modifier held (distinct by byte string + layout).".into();
+    run.rule = "Exhaustive forward: 3 prefix contexts x Set 2 codes {01..7F, 83, 84} x {make, break}, each Set 2 sequence and the Set 1 sequence the i8042 model derives from it (prefix kept, F0+code -> code|0x80 through the standard 8042 table) fed to fresh decoders; if Set 2 yields an event Set 1 must yield the identical event. Exhaustive converse: every Set 1 (prefix, code, make/break) that yields an event is compared with all its Set 2 pre-images (none may yield a different event, at least one must yield the same). Exhaustive ordered pairs of translatable cells (whatever the first sequence was, the second must still decode to the same event in both sets). End-to-end: random typing scripts (keys, modifiers, and raw defined-or-undefined translatable cells as line noise) rendered to Set 2 bytes, translated, fed to Keyboard<AnyLayout, Set2/Set1> for every layout; events, modifiers and decoded characters must match. Non-trivial = cell defined in at least one set (distinct by (direction, prefix, code, make/break)); script with a modifier held (distinct by byte string + layout).".into();
     run.assumptions = vec![
         "i8042 table = the standard 8042 Set2->Set1 table (AT technical reference / Brouwer / Linux atkbd), transcribed in model/sc.rs; validated to be a permutation of 01..7F".into(),
         "Set 2 code 84 -> Set 1 54 and 02 -> 41 are tolerated pre-images when Set 2 does not define them (C01 requires 84 unknown because the README gives SysRq = 7F)".into(),
@@ -1169,6 +1255,50 @@ pub fn c13(run: &mut Run) {
     }
     run.part("cells", json!({"forward_cells": 3 * sc::xlat_domain().len() * 2, "converse_cells": 3 * 128 * 2 - 2}));
     run.exhaustive = true;
+
+    // all ordered PAIRS of translatable cells: whatever the first sequence was (defined in both
+    // sets, in one, or in none), the second must still decode consistently in both sets.
+    // A pair is only judged if both of its cells agree when decoded alone (cell-level
+    // disagreements are reported above, once).
+    let cells: Vec<(Pfx, u8, bool)> = sc::PFXS.iter().flat_map(|p| sc::xlat_domain().into_iter().flat_map(move |c| [false, true].into_iter().map(move |b| (*p, c, b)))).filter(|(p, c, b)| c13_seqs(*p, *c, *b).is_some()).collect();
+    let alone: Vec<(Vec<u8>, Vec<u8>, Option<(KeyCode, KeyState)>, Option<(KeyCode, KeyState)>)> = cells
+        .iter()
+        .map(|(p, c, b)| {
+            let (s2, s1) = c13_seqs(*p, *c, *b).unwrap();
+            let o2 = last_out::<ScancodeSet2>(&s2).ok().and_then(|o| ev_of(&o));
+            let o1 = last_out::<ScancodeSet1>(&s1).ok().and_then(|o| ev_of(&o));
+            (s2, s1, o2, o1)
+        })
+        .collect();
+    let bad: Vec<(usize, usize)> = (0..cells.len())
+        .into_par_iter()
+        .flat_map_iter(|i| {
+            let mut bad = Vec::new();
+            if alone[i].2 == alone[i].3 {
+                for j in 0..cells.len() {
+                    if alone[j].2 != alone[j].3 {
+                        continue;
+                    }
+                    let r2 = run_bytes::<ScancodeSet2>(&[alone[i].0.clone(), alone[j].0.clone()].concat());
+                    let r1 = run_bytes::<ScancodeSet1>(&[alone[i].1.clone(), alone[j].1.clone()].concat());
+                    let e2: Option<Vec<_>> = r2.ok().map(|v| v.iter().filter_map(ev_of).collect());
+                    let e1: Option<Vec<_>> = r1.ok().map(|v| v.iter().filter_map(ev_of).collect());
+                    if e2 != e1 && bad.len() < 3 {
+                        bad.push((i, j));
+                    }
+                }
+            }
+            bad.into_iter()
+        })
+        .collect();
+    let judged = alone.iter().filter(|a| a.2 == a.3).count() as u64;
+    run.eval(judged * judged);
+    run.nontrivial_enum(judged * judged);
+    for (i, j) in bad.iter().take(12) {
+        c13_eval_e2e(run, L_US, &[alone[*i].0.clone(), alone[*j].0.clone()].concat());
+    }
+    run.total_violating_cases += bad.len().saturating_sub(12) as u64;
+    run.part("ordered_cell_pairs", json!({"cells": cells.len(), "cells_agreeing_alone": judged, "pairs_judged": judged * judged, "failing(sampled)": bad.len()}));
 
     // end-to-end scripts; keys whose forward cell is a listed known finding are excluded by
     // construction (counted), so the search continues behind the finding
@@ -1208,6 +1338,23 @@ pub fn c13(run: &mut Run) {
         let mut any_mod = false;
         let mut excluded = 0u64;
         for (ti, up, m) in steps {
+            if *m >= 215 {
+                // a raw translatable cell, defined or not (line noise both sets must shrug off
+                // identically); cells that disagree when decoded alone are excluded (counted)
+                let dom = sc::xlat_domain();
+                let c = dom[crate::prop::idx(*ti, dom.len())];
+                let p = sc::PFXS[(*m as usize) % 3];
+                if let Some((s2, s1)) = c13_seqs(p, c, *up) {
+                    let o2 = last_out::<ScancodeSet2>(&s2).ok().and_then(|o| ev_of(&o));
+                    let o1 = last_out::<ScancodeSet1>(&s1).ok().and_then(|o| ev_of(&o));
+                    if o2 == o1 {
+                        bytes.extend(s2);
+                    } else {
+                        excluded += 1;
+                    }
+                }
+                continue;
+            }
             // 35%: a modifier key, else any key
             let k = if *m < 90 { mod_keys[(*m as usize) % mod_keys.len()] } else { keys[crate::prop::idx(*ti, keys.len())] };
             if known_keys.contains(&key_name(k)) {
@@ -1296,6 +1443,10 @@ pub fn replay(run: &mut Run, case: &Value) -> bool {
             let c = case["code"].as_u64().unwrap_or(0) as u8;
             let (mut d, mut u) = (BTreeMap::new(), BTreeMap::new());
             if set2 { c19_eval_cell::<ScancodeSet2>(run, p, c, &mut d, &mut u) } else { c19_eval_cell::<ScancodeSet1>(run, p, c, &mut d, &mut u) }
+        }
+        "pair_after" => {
+            let (h, q) = (bytes_of(&case["history"]), bytes_of(&case["seq"]));
+            if set2 { c19_eval_after::<ScancodeSet2>(run, &h, &q) } else { c19_eval_after::<ScancodeSet1>(run, &h, &q) }
         }
         "pair_dup" => {
             // re-run the whole (cheap) table scan
